@@ -5,6 +5,7 @@ import numpy as np
 from vlib import Machinery
 import c05_fock as F
 
+FAMILIES_TJ = [('tJ', 'Z2'), ('tJ', 'U1xU1'), ('tJ', 'U1xU1xZ2')]
 FAMILIES = [('spinless', 'U1'), ('spinless', 'Z2'), ('spinful', 'Z2'), ('spinful', 'U1xU1'), ('spinful', 'U1xU1xZ2'), ('spin', 'dense'), ('spin', 'Z2'), ('spin', 'U1')]
 
 
@@ -27,6 +28,10 @@ class Family:
             self.gr = ['all', 1]
             self.pairs = [('I', 'I'), ('n', 'I'), ('I', 'n'), ('n', 'n'), ('cp', 'c'), ('c', 'cp')] + ([('cp', 'cp'), ('c', 'c')] if sym == 'Z2' else [])
             self.local = ['I', 'n']
+        elif kind == 'tJ':       # used for the predefined gates only (C11 gate_events)
+            ops, self.named, self.numbers = F.family('tJ', sym)
+            self.gr = ['all', 2]
+            self.pairs, self.local = [], ['I', 'nu', 'nd']
         else:
             ops, self.named, self.numbers = F.family('spinful', sym)
             self.named['nund'] = self.named['nu'] @ self.named['nd']
